@@ -131,9 +131,12 @@ class Interp:
             saved = self.in_contract
             self.in_contract += 1
             try:
-                return self.eval(node, State())
+                v = self.eval(node, State())
             finally:
                 self.in_contract = saved
+            if isinstance(v, (Ref, Obj)):
+                raise Unsupported(f"module-level mutable object {name!r} (global state is outside the verified subset)")
+            return v
         if name in KNOWN_MODULES:
             return ModuleV({"numpy": "np"}.get(name, name))
         if name in self.repo.classes or name in BUILTIN_EXC:
